@@ -174,6 +174,18 @@ TrimShare ==
   IN {<<AnyE(<<t(mode), u>>), m>> : mode \in {"spaces", "nl"}} \cup {<<AnyE(<<u, t(mode)>>), m>> : mode \in {"spaces", "nl"}} \cup
      {<<AnyE(<<v, t("none")>>), m>>, <<AnyE(<<SeqE("of", <<LTrim(Ref(2), "spaces"), Bt>>), SeqE("of", <<SPt, Ref(2), Bt>>)>>), m>>}
 
+\* combinator.Single / SuppressError over memoised results that other alternatives use as well
+SingleE(e) == N("single", "", <<e>>, 0, "")
+SuppressE(e) == N("suppress", "", <<e>>, 0, "")
+SingleBodies ==
+  LET q == {AnyE(<<SeqE("of", <<A>>), SeqE("of", <<A, A>>)>>), AnyE(<<SeqE("of", <<A>>)>>), SeqE("of", <<A>>), SeqE("many1", <<A>>),
+            AnyE(<<SeqE("of", <<Opt(A)>>), Bt>>)}
+      p == {AnyE(<<SeqE("of", <<SingleE(Ref(2)), Bt>>), SeqE("of", <<Ref(2), Bt>>)>>),
+            AnyE(<<SeqE("of", <<Ref(2), Bt>>), SeqE("of", <<SingleE(Ref(2)), Bt>>), SeqE("of", <<Ref(2), A>>)>>),
+            AnyE(<<SingleE(SeqE("of", <<Ref(2)>>)), SuppressE(SeqE("of", <<Ref(2), Bt>>))>>),
+            SeqE("of", <<SuppressE(AnyE(<<SeqE("of", <<A, Bt>>), Ref(2)>>)), Opt(Bt)>>)}
+  IN {<<x, y>> : x \in p, y \in q}
+
 \* two nonterminals: mutual and indirect left recursion
 F3Pairs ==
   LET at == {A, Bt, Ref(1), Ref(2), Opt(Ref(2))}
